@@ -417,3 +417,22 @@ func loopsOf(f *ssa.Function) map[*ssa.BasicBlock]map[*ssa.BasicBlock]bool {
 	}
 	return loops
 }
+
+// ci returns the integer value of a constant, or a value no rule compares
+// with when the constant is not an integer.
+func ci(k *ssa.Const) int64 {
+	if k == nil || k.Value == nil {
+		if k != nil && k.Value == nil {
+			return 0
+		}
+		return -1 << 62
+	}
+	if k.Value.Kind() != constant.Int {
+		return -1 << 62
+	}
+	v, ok := constant.Int64Val(k.Value)
+	if !ok {
+		return -1 << 62
+	}
+	return v
+}
